@@ -100,8 +100,13 @@ def main():
         argv += files
         if flag and sub != "emit":
             argv += ["--backend", os.path.join(d, "stub_flag")]
+        # a backend that is named but cannot be started (an empty string, a file that does not exist) is still THE backend:
+        # the tool must try it and fail, not fall back or skip the step
+        env_kind = rng.pick(["stub", "stub", "stub", "empty", "missing"])
+        cfg_kind = rng.pick(["stub", "stub", "stub", "empty", "missing"])
+        kind_value = lambda kind, tag: {"stub": os.path.join(d, "stub_" + tag), "empty": "", "missing": os.path.join(d, "no_such_backend_" + tag)}[kind]
         if cfg:
-            open(os.path.join(d, "cfg.toml"), "w").write('backend = "%s"\n' % os.path.join(d, "stub_cfg"))
+            open(os.path.join(d, "cfg.toml"), "w").write('backend = "%s"\n' % kind_value(cfg_kind, "cfg"))
             argv += ["--config", os.path.join(d, "cfg.toml")]
         if silent:
             argv.append("--silent")
@@ -119,7 +124,7 @@ def main():
         envv.pop("PENNE_BACKEND", None)
         envv.pop("PENNE_LLI", None)
         if env and sub != "emit":
-            envv["PENNE_BACKEND" if sub in ("build", "default") else "PENNE_LLI"] = os.path.join(d, "stub_env")
+            envv["PENNE_BACKEND" if sub in ("build", "default") else "PENNE_LLI"] = kind_value(env_kind, "env")
         p = subprocess.run(argv, cwd=d, env=envv, stdout=subprocess.PIPE, stderr=subprocess.PIPE, timeout=120)
         out = p.stdout + p.stderr
         # model
@@ -130,6 +135,15 @@ def main():
             be = (str(3) if inp == "two" else str(retval % 256)) if compile_ok else "0"
         else:
             be = "signalled" if status == "signal" else str(status)
+        chosen_kind = "stub"
+        if not (flag and sub != "emit"):
+            if env and sub != "emit":
+                chosen_kind = env_kind
+            elif cfg:
+                chosen_kind = cfg_kind
+        if chosen_kind != "stub":
+            be = "spawnfailed"
+        dist["backend-source:%s" % ("flag" if (flag and sub != "emit") else "env-" + env_kind if (env and sub != "emit") else "cfg-" + cfg_kind if cfg else "default")] += 1
         req = "(inv %s %s %s %s %d %s %d %d)" % (
             msub, "flag" if (flag and sub != "emit") else "-", "env" if (env and sub != "emit") else "-",
             "cfg" if cfg else "-", 1 if compile_ok else 0, be, 1 if silent else 0, 1 if verbose else 0)
@@ -145,7 +159,10 @@ def main():
         exp_tag = md["backend"]
         if exp_tag in ("clang", "lli"):
             exp_tag = "default-" + exp_tag
-        if md["invoked"] == "1" and not real_lli_used:
+        if md["invoked"] == "1" and be == "spawnfailed":
+            if invoked_tag is not None:
+                problems.append("backend invoked: %s, although the chosen backend cannot be started" % invoked_tag)
+        elif md["invoked"] == "1" and not real_lli_used:
             if invoked_tag != exp_tag:
                 problems.append("backend invoked: %s, expected %s" % (invoked_tag, exp_tag))
         if md["invoked"] == "0" and invoked_tag is not None:
@@ -155,7 +172,7 @@ def main():
                 problems.append("`Output: %s` expected, got %r" % (md["output"], mo.group(0) if mo else None))
         elif mo:
             problems.append("unexpected %r" % mo.group(0))
-        if sub == "run" and compile_ok and md["invoked"] == "1" and not silent:
+        if sub == "run" and compile_ok and md["invoked"] == "1" and not silent and be != "spawnfailed":
             marker = b"hello" if real_lli_used and inp == "valid" else (b"stub-output" if not real_lli_used else None)
             if marker and marker not in out:
                 problems.append("the program's output was not passed through")
